@@ -6,8 +6,9 @@
 From Coq Require Import Sorted.
 From Coq.Strings Require Import Byte.
 From EsVerif.Common Require Import Base Bytes.
-From EsVerif.C02 Require Import Arange Gen Model Spec SpecProofs SliceProofs RowsProofs CursorProofs MainProofs TextProofs.
-From EsVerif.C04 Require TextModel.
+From EsVerif.C02 Require Import Arange Gen Model Spec SpecProofs SliceProofs RowsProofs CursorProofs MainProofs TextProofs
+  TextAligned RequestProofs RequestInst.
+From EsVerif.C04 Require TextModel Spec.
 
 (* the boolean checker run on the implementation's output decides the property as stated in Spec.v *)
 Theorem C02_check_sound : forall n names full q out,
@@ -162,6 +163,73 @@ Theorem C02_cursor_text_partial : forall P d fs keep st rw n rows,
   TextModel.read_rows_sel P d fs keep rows 0 (st O) = Ok (map (fun r => rw (Z.to_nat r)) rows).
 Proof. exact cursor_text_partial. Qed.
 
+(* FULL for files written by esutil: the alignment premise is discharged for the text the writer produces
+   (C04/TextModel.v write_text) for a table_ok table, outside C04's known class, whose strings contain no
+   end-of-line character (skip_text_rows counts newlines), with a delimiter that is not 0xff (fgetc into a
+   signed char takes it for EOF): the skip-and-read loop returns exactly the selected rows of the full
+   read, each projected on the kept columns *)
+Theorem C02_cursor_text_correct : forall F P d t keep rows,
+  C04.Spec.delim_ok d -> byte_eqb d xff = false ->
+  C04.Spec.table_ok t -> C04.Spec.fcontract F P t -> C04.Spec.strings_noeol t ->
+  C04.Spec.kf_leading_ws_after_numeric d t = false ->
+  length keep = length (TextModel.tdt t) ->
+  StronglySorted Z.lt rows -> Forall (fun r => 0 <= r < Z.of_nat (length (TextModel.trows t))) rows ->
+  TextModel.read_rows_all P d (TextModel.tdt t) keep (length (TextModel.trows t)) (TextModel.write_text F d t)
+  = Ok (map (select keep) (TextModel.trows (C04.Spec.expected F P t)))
+  /\ TextModel.read_rows_sel P d (TextModel.tdt t) keep rows 0 (TextModel.write_text F d t)
+  = Ok (map (fun r => select keep (nth (Z.to_nat r) (TextModel.trows (C04.Spec.expected F P t)) [])) rows).
+Proof. intros F P d t keep rows Hd Hff Ht Hc Hn Hk. exact (cursor_text_correct F P d t Hd Hff Ht Hc Hn Hk keep rows). Qed.
+
+(* the written text is line-aligned (the premise of C02_cursor_text_partial holds) *)
+Theorem C02_written_text_aligned : forall F P d t keep,
+  C04.Spec.delim_ok d -> byte_eqb d xff = false ->
+  C04.Spec.table_ok t -> C04.Spec.fcontract F P t -> C04.Spec.strings_noeol t ->
+  C04.Spec.kf_leading_ws_after_numeric d t = false ->
+  length keep = length (TextModel.tdt t) ->
+  aligned P d (TextModel.tdt t) keep (st_of F d t) (rw_of F P t keep) (length (TextModel.trows t)).
+Proof. intros F P d t keep Hd Hff Ht Hc Hn Hk. exact (written_text_aligned F P d t Hd Hff Ht Hc Hn Hk keep). Qed.
+
+(* ------------------------------------------------------------------ THE PROPERTY, one theorem about the model
+   file_ok P f t: f is a well-formed binary file whose rows are t, or a text file written by the writer
+   (wf_text: table_ok, oracle contract, outside C04's known class, strings without end-of-line characters)
+   whose full read is t.  For every request q that run_request covers -- Recfile.read(rows=, columns= /
+   fields=, split=), Recfile[rows], Recfile[cols][rows], Recfile[cols].read(rows=, split=), SFile.read /
+   sfile.read(rows=, columns= / fields=, split=, reduce=) -- with
+     - a row argument the style accepts (keyword: None, scalar, list; bracket: scalar, list, slice),
+     - options the style has (no split for bracket styles, reduce only for SFile.read),
+     - spec_cols = CXCols cols scalar: no column argument, a known column name (scalar), or a non-empty list of
+       known, distinct names; cols = their file positions in FILE ORDER,
+     - spec_rows = RXRows rows: no row argument (all rows), a scalar in [-n, n) (row r mod n), a list of rows in
+       [0, n) (its DISTINCT members in ASCENDING order), or a slice with step None or > 0 (the rows of the
+       PYTHON slice, negative and out-of-range bounds included),
+   the read succeeds and returns one of the values [shapes] allows: the table t indexed by rows and cols; a plain
+   array for a scalar column name; a tuple of plain arrays under split; a plain array under reduce when exactly
+   one column is left.  Unconstrained (hypotheses not met): scalar rows outside [-n, n), lists with entries in
+   [-n, 0), steps <= 0, unknown / repeated / empty column lists. *)
+Theorem C02_request_spec : forall P f t q rows cols scalar,
+  file_ok P f t -> NoDup (rf_names f) ->
+  rows_arg_ok (q_style q) (q_rows q) = true ->
+  (has_cols (q_style q) = false -> q_cols q = CNone) ->
+  (has_split (q_style q) = false -> q_split q = false) ->
+  (has_reduce (q_style q) = false -> q_reduce q = false) ->
+  spec_cols (rf_names f) (q_cols q) = CXCols cols scalar ->
+  spec_rows (rf_nrows f) (q_rows q) = RXRows rows ->
+  exists v, run_request P f q = Ok v /\ In v (shapes t rows cols scalar (q_split q) (q_reduce q)).
+Proof. exact request_spec_any. Qed.
+
+(* out-of-range row lists (an entry < -n or >= n) are rejected in every access style *)
+Theorem C02_request_rejected : forall P f t q,
+  file_ok P f t ->
+  rows_arg_ok (q_style q) (q_rows q) = true ->
+  spec_rows (rf_nrows f) (q_rows q) = RXReject ->
+  exists e, run_request P f q = Err e.
+Proof. exact request_rejected_any. Qed.
+
+(* the same as the Prop the checker decides (C02_check_sound): the model satisfies the property of Spec.v *)
+Theorem C02_request_holds : forall P f t q,
+  file_ok P f t -> NoDup (rf_names f) -> holds (rf_nrows f) (rf_names f) t q (run_request P f q).
+Proof. exact request_holds_any. Qed.
+
 (* non-vacuity of the alignment premise: the two-line file "1,2\n3,4\n", first column kept *)
 Definition ex_fs : list TextModel.fld :=
   [ {| TextModel.fname := []; TextModel.fkind := TextModel.KInt true 1; TextModel.forder := TextModel.NA; TextModel.fshape := [] |};
@@ -188,3 +256,5 @@ Proof. reflexivity. Qed.
 Example ex_read : recfile_read (fun _ x => x) ex_file (RList [2; 0; 2]) CNone (CList [11]) false
                   = Ok (VTable [1] [[[x0a]]; [[x0c]]]).
 Proof. reflexivity. Qed.
+Example ex_file_ok : file_ok (fun _ x => x) ex_file ex_table.
+Proof. left. exists []. split; [exact ex_wf|discriminate]. Qed.
